@@ -27,79 +27,79 @@ func InternalEscapeBytes(b []byte, startLoc int, breakNewLines, strip bool) (res
   loop 2 invariant !copied ==> res == b && k == 0
   loop 2 invariant copied ==> startLoc <= k && fresh(res)
   loop 2 invariant [C13] memUnchanged()
-  loop 2 invariant [C01,C03] !strip ==> (forall j :: k <= j && startLoc <= j && j < i && j + 3 <= len(b) ==> !isM(b, j))
-  loop 2 invariant [C01,C03] !strip && breakNewLines ==> (forall j :: k <= j && startLoc <= j && j < i ==> b[j] != 10)
-  loop 2 invariant [C01,C03] !strip && copied ==> dep(res, len(res)) == old(dep(b, startLoc))
-  loop 2 invariant [C01,C03] !strip && copied ==> WFP(res, len(res))
-  loop 2 invariant [C01,C03] !strip && copied ==> LS(res, len(res))
-  loop 2 invariant [C01,C03] !strip && copied ==> clean(res, len(res))
+  loop 2 invariant [C01,C03,C10] !strip ==> (forall j :: k <= j && startLoc <= j && j < i && j + 3 <= len(b) ==> !isM(b, j))
+  loop 2 invariant [C01,C03,C10] !strip && breakNewLines ==> (forall j :: k <= j && startLoc <= j && j < i ==> b[j] != 10)
+  loop 2 invariant [C01,C03,C10] !strip && copied ==> dep(res, len(res)) == old(dep(b, startLoc))
+  loop 2 invariant [C01,C03,C10] !strip && copied ==> WFP(res, len(res))
+  loop 2 invariant [C01,C03,C10] !strip && copied ==> LS(res, len(res))
+  loop 2 invariant [C01,C03,C10] !strip && copied ==> clean(res, len(res))
 
   loop 3 invariant i <= lastNewLine && lastNewLine <= len(b)
-  loop 3 invariant [C01,C03] forall j :: i <= j && j < lastNewLine ==> b[j] == 10
+  loop 3 invariant [C01,C03,C10] forall j :: i <= j && j < lastNewLine ==> b[j] == 10
 
   ghost gl = len(res) before "res = append(res, b[k:i]...)"
   ghost ga = res before "res = append(res, b[k:i]...)"
-  lemma [C01,C03] AppendPlain(b, b, startLoc, i) when !strip && gl == 0 && k == 0 after "res = append(res, b[k:i]...)"
-  lemma [C01,C03] AppendPlainLS(b, b, startLoc, i) when !strip && gl == 0 && k == 0 after "res = append(res, b[k:i]...)"
-  lemma [C01,C03] CopyWF(b, res, i) when !strip && gl == 0 && k == 0 after "res = append(res, b[k:i]...)"
-  lemma [C01,C03] AppendPlain(ga, res, gl, len(res)) when !strip && !(gl == 0 && k == 0) after "res = append(res, b[k:i]...)"
-  lemma [C01,C03] AppendPlainLS(ga, res, gl, len(res)) when !strip && !(gl == 0 && k == 0) after "res = append(res, b[k:i]...)"
-  assert [C01,C03] !strip ==> dep(res, len(res)) == old(dep(b, startLoc)) after "res = append(res, b[k:i]...)"
-  assert [C01,C03] !strip ==> WFP(res, len(res)) after "res = append(res, b[k:i]...)"
-  assert [C01,C03] !strip ==> LS(res, len(res)) after "res = append(res, b[k:i]...)"
+  lemma [C01,C03,C10] AppendPlain(b, b, startLoc, i) when !strip && gl == 0 && k == 0 after "res = append(res, b[k:i]...)"
+  lemma [C01,C03,C10] AppendPlainLS(b, b, startLoc, i) when !strip && gl == 0 && k == 0 after "res = append(res, b[k:i]...)"
+  lemma [C01,C03,C10] CopyWF(b, res, i) when !strip && gl == 0 && k == 0 after "res = append(res, b[k:i]...)"
+  lemma [C01,C03,C10] AppendPlain(ga, res, gl, len(res)) when !strip && !(gl == 0 && k == 0) after "res = append(res, b[k:i]...)"
+  lemma [C01,C03,C10] AppendPlainLS(ga, res, gl, len(res)) when !strip && !(gl == 0 && k == 0) after "res = append(res, b[k:i]...)"
+  assert [C01,C03,C10] !strip ==> dep(res, len(res)) == old(dep(b, startLoc)) after "res = append(res, b[k:i]...)"
+  assert [C01,C03,C10] !strip ==> WFP(res, len(res)) after "res = append(res, b[k:i]...)"
+  assert [C01,C03,C10] !strip ==> LS(res, len(res)) after "res = append(res, b[k:i]...)"
 
-  assert [C01,C03] !strip ==> dep(res, len(res)) == 0 after "res = res[:len(res)-ls]"
-  assert [C01,C03] !strip ==> WFP(res, len(res)) after "res = res[:len(res)-ls]"
-  assert [C01,C03] !strip ==> LS(res, len(res)) after "res = res[:len(res)-ls]"
+  assert [C01,C03,C10] !strip ==> dep(res, len(res)) == 0 after "res = res[:len(res)-ls]"
+  assert [C01,C03,C10] !strip ==> WFP(res, len(res)) after "res = res[:len(res)-ls]"
+  assert [C01,C03,C10] !strip ==> LS(res, len(res)) after "res = res[:len(res)-ls]"
 
   ghost gl = len(res) before "res = append(res, end...)"
   ghost ga = res before "res = append(res, end...)"
-  lemma [C01,C03] AppendDelim(ga, res, gl, false) when !strip after "res = append(res, end...)"
-  assert [C01,C03] !strip ==> dep(res, len(res)) == 0 after "res = append(res, end...)"
-  assert [C01,C03] !strip ==> WFP(res, len(res)) after "res = append(res, end...)"
-  assert [C01,C03] !strip ==> LS(res, len(res)) after "res = append(res, end...)"
+  lemma [C01,C03,C10] AppendDelim(ga, res, gl, false) when !strip after "res = append(res, end...)"
+  assert [C01,C03,C10] !strip ==> dep(res, len(res)) == 0 after "res = append(res, end...)"
+  assert [C01,C03,C10] !strip ==> WFP(res, len(res)) after "res = append(res, end...)"
+  assert [C01,C03,C10] !strip ==> LS(res, len(res)) after "res = append(res, end...)"
 
   ghost gl = len(res) before "res = append(res, b[i:lastNewLine]...)"
   ghost ga = res before "res = append(res, b[i:lastNewLine]...)"
-  lemma [C01,C03] AppendPlain(ga, res, gl, len(res)) when !strip after "res = append(res, b[i:lastNewLine]...)"
-  lemma [C01,C03] AppendPlainLS(ga, res, gl, len(res)) when !strip after "res = append(res, b[i:lastNewLine]...)"
-  assert [C01,C03] !strip ==> dep(res, len(res)) == 0 after "res = append(res, b[i:lastNewLine]...)"
-  assert [C01,C03] !strip ==> WFP(res, len(res)) after "res = append(res, b[i:lastNewLine]...)"
-  assert [C01,C03] !strip ==> LS(res, len(res)) after "res = append(res, b[i:lastNewLine]...)"
+  lemma [C01,C03,C10] AppendPlain(ga, res, gl, len(res)) when !strip after "res = append(res, b[i:lastNewLine]...)"
+  lemma [C01,C03,C10] AppendPlainLS(ga, res, gl, len(res)) when !strip after "res = append(res, b[i:lastNewLine]...)"
+  assert [C01,C03,C10] !strip ==> dep(res, len(res)) == 0 after "res = append(res, b[i:lastNewLine]...)"
+  assert [C01,C03,C10] !strip ==> WFP(res, len(res)) after "res = append(res, b[i:lastNewLine]...)"
+  assert [C01,C03,C10] !strip ==> LS(res, len(res)) after "res = append(res, b[i:lastNewLine]...)"
 
   ghost gl = len(res) before "res = append(res, start...)"
   ghost ga = res before "res = append(res, start...)"
-  lemma [C01,C03] AppendDelim(ga, res, gl, true) when !strip after "res = append(res, start...)"
-  assert [C01,C03] !strip ==> dep(res, len(res)) == 1 after "res = append(res, start...)"
-  assert [C01,C03] !strip ==> WFP(res, len(res)) after "res = append(res, start...)"
-  assert [C01,C03] !strip ==> LS(res, len(res)) after "res = append(res, start...)"
-  assert [C01,C03] !strip ==> clean(res, len(res)) after "res = append(res, start...)"
+  lemma [C01,C03,C10] AppendDelim(ga, res, gl, true) when !strip after "res = append(res, start...)"
+  assert [C01,C03,C10] !strip ==> dep(res, len(res)) == 1 after "res = append(res, start...)"
+  assert [C01,C03,C10] !strip ==> WFP(res, len(res)) after "res = append(res, start...)"
+  assert [C01,C03,C10] !strip ==> LS(res, len(res)) after "res = append(res, start...)"
+  assert [C01,C03,C10] !strip ==> clean(res, len(res)) after "res = append(res, start...)"
 
   ghost gl = len(res) before "res = append(res, escape...)"
   ghost ga = res before "res = append(res, escape...)"
-  lemma [C01,C03] AppendPlain(ga, res, gl, len(res)) when !strip after "res = append(res, escape...)"
-  lemma [C01,C03] AppendPlainLS(ga, res, gl, len(res)) when !strip after "res = append(res, escape...)"
-  assert [C01,C03] !strip ==> dep(res, len(res)) == old(dep(b, startLoc)) after "res = append(res, escape...)"
-  assert [C01,C03] !strip ==> WFP(res, len(res)) after "res = append(res, escape...)"
-  assert [C01,C03] !strip ==> LS(res, len(res)) after "res = append(res, escape...)"
-  assert [C01,C03] !strip ==> clean(res, len(res)) after "res = append(res, escape...)"
+  lemma [C01,C03,C10] AppendPlain(ga, res, gl, len(res)) when !strip after "res = append(res, escape...)"
+  lemma [C01,C03,C10] AppendPlainLS(ga, res, gl, len(res)) when !strip after "res = append(res, escape...)"
+  assert [C01,C03,C10] !strip ==> dep(res, len(res)) == old(dep(b, startLoc)) after "res = append(res, escape...)"
+  assert [C01,C03,C10] !strip ==> WFP(res, len(res)) after "res = append(res, escape...)"
+  assert [C01,C03,C10] !strip ==> LS(res, len(res)) after "res = append(res, escape...)"
+  assert [C01,C03,C10] !strip ==> clean(res, len(res)) after "res = append(res, escape...)"
 
   ghost gl = len(res) before "res = append(res, b[k:]...)"
   ghost ga = res before "res = append(res, b[k:]...)"
-  lemma [C01,C03] AppendPlain(b, b, startLoc, len(b)) when !strip && gl == 0 && k == 0 after "res = append(res, b[k:]...)"
-  lemma [C01,C03] AppendPlainLS(b, b, startLoc, len(b)) when !strip && gl == 0 && k == 0 after "res = append(res, b[k:]...)"
-  lemma [C01,C03] CopyWF(b, res, len(b)) when !strip && gl == 0 && k == 0 after "res = append(res, b[k:]...)"
-  lemma [C01,C03] AppendPlain(ga, res, gl, len(res)) when !strip && !(gl == 0 && k == 0) after "res = append(res, b[k:]...)"
-  lemma [C01,C03] AppendPlainLS(ga, res, gl, len(res)) when !strip && !(gl == 0 && k == 0) after "res = append(res, b[k:]...)"
-  assert [C01,C03] !strip ==> dep(res, len(res)) == old(dep(b, startLoc)) after "res = append(res, b[k:]...)"
-  assert [C01,C03] !strip ==> WFP(res, len(res)) after "res = append(res, b[k:]...)"
-  assert [C01,C03] !strip ==> LS(res, len(res)) after "res = append(res, b[k:]...)"
+  lemma [C01,C03,C10] AppendPlain(b, b, startLoc, len(b)) when !strip && gl == 0 && k == 0 after "res = append(res, b[k:]...)"
+  lemma [C01,C03,C10] AppendPlainLS(b, b, startLoc, len(b)) when !strip && gl == 0 && k == 0 after "res = append(res, b[k:]...)"
+  lemma [C01,C03,C10] CopyWF(b, res, len(b)) when !strip && gl == 0 && k == 0 after "res = append(res, b[k:]...)"
+  lemma [C01,C03,C10] AppendPlain(ga, res, gl, len(res)) when !strip && !(gl == 0 && k == 0) after "res = append(res, b[k:]...)"
+  lemma [C01,C03,C10] AppendPlainLS(ga, res, gl, len(res)) when !strip && !(gl == 0 && k == 0) after "res = append(res, b[k:]...)"
+  assert [C01,C03,C10] !strip ==> dep(res, len(res)) == old(dep(b, startLoc)) after "res = append(res, b[k:]...)"
+  assert [C01,C03,C10] !strip ==> WFP(res, len(res)) after "res = append(res, b[k:]...)"
+  assert [C01,C03,C10] !strip ==> LS(res, len(res)) after "res = append(res, b[k:]...)"
 
-  lemma [C01,C03] AppendPlain(b, b, startLoc, len(b)) when !strip && !copied before "return"
-  lemma [C01,C03] AppendPlainLS(b, b, startLoc, len(b)) when !strip && !copied before "return"
+  lemma [C01,C03,C10] AppendPlain(b, b, startLoc, len(b)) when !strip && !copied before "return"
+  lemma [C01,C03,C10] AppendPlainLS(b, b, startLoc, len(b)) when !strip && !copied before "return"
 
-  ensures [C01] !strip ==> WFP(res, len(res)) && dep(res, len(res)) == old(dep(b, startLoc))
-  ensures [C03] !strip ==> LS(res, len(res))
+  ensures [C01,C10] !strip ==> WFP(res, len(res)) && dep(res, len(res)) == old(dep(b, startLoc))
+  ensures [C03,C10] !strip ==> LS(res, len(res))
   ensures [C01,C10] !strip ==> clean(res, len(res))
   ensures [C13] memUnchanged()
   ensures (!strip ==> res == b) || fresh(res)
